@@ -31,7 +31,7 @@ func (*ImmutableNativeBox[T]) Class() *Class {
 }
 
 func (*ImmutableNativeBox[T]) DirectClass() *Class {
-	return BoxClass
+	return ImmutableBoxClass
 }
 
 func (*ImmutableNativeBox[T]) SingletonClass() *Class {
